@@ -233,7 +233,7 @@ def run_harness(h, tier, timeout_scale=1.0):
     MEM.acquire(h.mem_gb)
     t0 = time.time()
     try:
-        shell = 'ulimit -v %d; exec "$@"' % (h.mem_gb * 1024 * 1024)
+        shell = 'ulimit -v %d; exec /usr/bin/time -f PV_MAXRSS_KB=%%M "$@"' % (h.mem_gb * 1024 * 1024)
         with open(logp, 'wb') as lf:
             p = subprocess.Popen(['bash', '-c', shell, 'bash'] + cmd, cwd=cwd, env=base_env(), stdout=lf,
                                  stderr=subprocess.STDOUT, start_new_session=True)
@@ -272,6 +272,8 @@ def parse_log(text):
     vc = re.findall(r'(\d+) variables, (\d+) clauses', text)
     res['sat_vars'] = max([int(a) for a, _ in vc], default=0)
     res['sat_clauses'] = max([int(b) for _, b in vc], default=0)
+    m = re.search(r'PV_MAXRSS_KB=(\d+)', text)
+    res['max_rss_mb'] = int(m.group(1)) // 1024 if m else None
     res['stubs_applied'] = sorted(set(re.findall(r' - Stub: (.*)', text)))
     res['cbmc_error'] = bool(re.search(r'Status: ERROR|CBMC failed|CBMC appears to have run out of memory|std::bad_alloc|Out of memory', text))
     res['compile_error'] = bool(re.search(r'^error(\[E\d+\])?:', text, re.M)) and not checks
@@ -435,9 +437,9 @@ def main(argv):
             r = fut.result()
             results.append((h, r))
             nfail = sum(1 for c in r['checks'] if c['status'] == 'FAILURE')
-            log('  %-34s %-11s %6.1fs  checks=%d failed=%d solver=%.1fs%s' % (
+            log('  %-34s %-11s %6.1fs  checks=%d failed=%d solver=%.1fs rss=%sMB%s' % (
                 h.name, r['verdict'] or ('TIMEOUT' if r['timed_out'] else 'NO-VERDICT'), r['wall_s'], len(r['checks']), nfail,
-                r['solver_s'], ' (timeout %ds)' % r['timeout'] if r['timed_out'] else ''))
+                r['solver_s'], r.get('max_rss_mb'), ' (timeout %ds)' % r['timeout'] if r['timed_out'] else ''))
     return conclude(pid, a.tier, seed, results, meta, t0)
 
 
@@ -534,16 +536,25 @@ def conclude(pid, tier, seed, results, meta, t0):
         if key in seen:
             continue
         seen.add(key)
-        if play is None:
-            unreplayed.append((h, c))
-            continue
-        rep = native_replay(h, play['vals'])
         kind = classify_check(c)
 
         def reproduces(out):
             if kind == 'property':
                 return ('REPLAY failed: ' + c['desc']) in out
             return 'REPLAY panic:' in out
+        if play is None:
+            # Kani prints one playback per distinct assignment: when the counterexample of this check coincides with
+            # the witness of a cover (or of another check) no separate test is printed.  Try the printed ones: the
+            # criterion stays the same -- THIS check must fail natively on the real code.
+            for cand in r['plays']:
+                rep_c = native_replay(h, cand['vals'])
+                if any(rc == 1 and reproduces(out) for rc, out in rep_c.values()):
+                    play = cand
+                    break
+        if play is None:
+            unreplayed.append((h, c))
+            continue
+        rep = native_replay(h, play['vals'])
         reproduced = any(rc == 1 and reproduces(out) for rc, out in rep.values())
         invalid = all(rc == 2 for rc, _ in rep.values())
         rid = hashlib.sha1((h.name + c['desc'] + hexvals(play['vals'])).encode()).hexdigest()[:10]
@@ -611,7 +622,7 @@ def write_evidence(pid, tier, seed, results, samples, wall, meta, inconclusive=(
             'functions_encoded': h.funcs, 'bound': h.bound, 'unwind': h.unwind, 'kani_flags': h.kani_flags(tier),
             'stubs': h.stub_docs(), 'stubs_applied_by_kani': r['stubs_applied'],
             'checks_by_status': by, 'sat_calls': r['sat_calls'], 'solver_time_s': r['solver_s'], 'symex_time_s': r['symex_s'],
-            'sat_vars': r['sat_vars'], 'sat_clauses': r['sat_clauses'], 'wall_s': r['wall_s'],
+            'sat_vars': r['sat_vars'], 'sat_clauses': r['sat_clauses'], 'wall_s': r['wall_s'], 'max_rss_mb': r.get('max_rss_mb'), 'mem_limit_gb': h.mem_gb,
             'property_assertions': sorted(set(c['desc'] for c in r['checks'] if c['desc'].startswith('PV:'))),
         })
     if not samples:
